@@ -113,7 +113,7 @@ func genC05(w *bufio.Writer, tier string, rng *rand.Rand) {
 				fmt.Fprintf(w, "nd %s %s cdf %s\n", fmtF(ms[0]), fmtF(ms[1]), fmtF(ms[0]+z*ms[1]))
 				fmt.Fprintf(w, "nd %s %s pdf %s\n", fmtF(ms[0]), fmtF(ms[1]), fmtF(ms[0]+z*ms[1]))
 			}
-			if z > 0 && z < 1 {
+			if z >= 1e-300 && z < 1 { // (the property's range for p ends at 1e-300; subnormal p cannot be met relatively)
 				fmt.Fprintf(w, "nd %s %s inv %s\n", fmtF(ms[0]), fmtF(ms[1]), fmtF(z))
 			}
 		}
